@@ -24,7 +24,8 @@ LEVEL_NOTE = 'trusts vf/refcodec.py; values 1..6 (cannot carry a payload byte) a
 RULE = ('case = (role, local configured maximum, peer-announced maximum, data length); distinct = same tuple; '
         'non-trivial = every case (each negotiates and transmits)')
 ASSUMPTIONS = ['maximum length bounds the P-DATA-TF variable field (PS3.8 D.1); 0 means no limit']
-REQUIRED = ['oracle.announced-value', 'oracle.peer-limit-honoured', 'oracle.message-complete']
+REQUIRED = ['oracle.announced-value', 'oracle.peer-limit-honoured', 'oracle.message-complete',
+            'sim.entity-storage', 'sim.source-short-reads']
 
 GRID = [0, 7, 8, 9, 126, 127, 128, 129, 1023, 1024, 1025, 16383, 16384, 16385, 65535, 65536, 65537,
         2 ** 31 - 1, 2 ** 31, 2 ** 31 + 1, 2 ** 32 - 2, 2 ** 32 - 1]
@@ -63,9 +64,15 @@ def run_shard(spec, tier, seed):
     if spec['name'] == 'grid':
         for local in spec['locals']:
             for peer in GRID:
-                for n in sizes_for(peer):
+                # sizes relative to the fragment size that should result (smaller of the non-zero
+                # values): only chooses inputs, the oracle uses the peer's value alone
+                eff = min([v for v in (local, peer) if v] or [0])
+                for n in sizes_for(eff):
                     run_case(res, {'role': spec['role'], 'local': local, 'peer': peer, 'len': n,
                                    'seed': seed})
+                # the ready-made storage entities negotiate like the plain ones
+                run_case(res, {'role': spec['role'], 'local': local, 'peer': peer, 'len': sizes_for(eff)[-1],
+                               'seed': seed, 'kind': 'storage'})
     else:
         for i in range(spec['lo'], spec['hi']):
             r = rng(seed, 'c10', i)
@@ -77,9 +84,11 @@ def run_shard(spec, tier, seed):
                 if k < 0.6:
                     return r.randrange(7, 70000)
                 return r.randrange(7, 2 ** 32)
-            peer = pick()
-            run_case(res, {'role': r.choice(['acceptor', 'requestor']), 'local': pick(), 'peer': peer,
-                           'len': r.choice(sizes_for(peer)), 'seed': seed})
+            peer, local = pick(), pick()
+            eff = min([v for v in (local, peer) if v] or [0])
+            run_case(res, {'role': r.choice(['acceptor', 'requestor']), 'local': local, 'peer': peer,
+                           'len': r.choice(sizes_for(eff)), 'seed': seed,
+                           'kind': r.choice(['plain', 'plain', 'storage'])})
     return res
 
 
@@ -103,8 +112,49 @@ def run_case(res, case):
     from pynetdicom2 import applicationentity, asceprovider, pdu as P, dimsemessages
     role, local, peer, n = case['role'], case['local'], case['peer'], case['len']
     res.evaluations += 1
-    res.distinct.add('%s|%d|%d|%d' % (role, local, peer, n))
-    where = '%s local=%d peer=%d data=%d' % (role, local, peer, n)
+    kind = case.get('kind', 'plain')
+    res.distinct.add('%s|%d|%d|%d|%s' % (role, local, peer, n, kind))
+    where = '%s(%s entity) local=%d peer=%d data=%d' % (role, kind, local, peer, n)
+    res.count('sim.entity-' + kind)
+    import tempfile
+    storage_dir = tempfile.mkdtemp(prefix='vf-c10-') if kind == 'storage' else None
+    try:
+        _run(res, case, role, local, peer, n, kind, where, storage_dir)
+    finally:
+        if storage_dir:
+            import shutil
+            shutil.rmtree(storage_dir, ignore_errors=True)
+
+
+class ShortReads(object):
+    """A seekable binary stream whose read(n) may return fewer bytes than asked for before the
+    end of the data (as raw, unbuffered and wrapping streams do)."""
+
+    def __init__(self, data, r):
+        import io
+        self._f = io.BytesIO(data)
+        self._r = r
+
+    def read(self, n=-1):
+        if n is None or n < 0:
+            return self._f.read()
+        if n > 1 and self._r.random() < 0.7:
+            n = self._r.randrange(1, n)
+        return self._f.read(n)
+
+    def seek(self, *a):
+        return self._f.seek(*a)
+
+    def tell(self):
+        return self._f.tell()
+
+    def close(self):
+        self._f.close()
+
+
+def _run(res, case, role, local, peer, n, kind, where, storage_dir):
+    from pynetdicom2 import applicationentity, asceprovider, pdu as P, dimsemessages
+    import pynetdicom2
     r = rng(case['seed'], 'c10-data', n)
     data = bytes(r.getrandbits(8) for _ in range(min(n, 4096))) * (n // 4096 + 1)
     data = data[:n]
@@ -112,25 +162,30 @@ def run_case(res, case):
         announced = None
         try:
             if role == 'acceptor':
-                ae = applicationentity.AE('LOCAL', 0, bind_and_activate=False, max_pdu_length=local)
+                if kind == 'storage':
+                    ae = pynetdicom2.StorageAE(storage_dir, 'LOCAL', 0, max_pdu_length=local)
+                else:
+                    ae = applicationentity.AE('LOCAL', 0, bind_and_activate=False, max_pdu_length=local)
                 try:
                     ae.add_scp(_echo_service())
                     rq = P.AAssociateRqPDU.decode(R.build_pdu(F.assoc_rq_tree(max_len=peer)))
                     Stub.preload = [rq, P.AReleaseRqPDU()]
-                    asce = asceprovider.AssociationAcceptor(stubdul.FakeRequest(), ('peer', 1), ae,
-                                                            max_pdu_length=local)
+                    # what socketserver's finish_request() does for an accepted connection
+                    asce = ae.RequestHandlerClass(stubdul.FakeRequest(), ('peer', 1), ae)
                     stub = Stub.instances[0]
                 finally:
                     ae.server_close()
                 pdus = [p for p in stub.sent_pdus() if getattr(p, 'pdu_type', None) == 2]
             else:
-                ae = applicationentity.ClientAE('LOCAL', max_pdu_length=local)
+                if kind == 'storage':
+                    ae = pynetdicom2.ClientStorageAE(storage_dir, 'LOCAL', max_pdu_length=local)
+                else:
+                    ae = applicationentity.ClientAE('LOCAL', max_pdu_length=local)
                 ae.add_scu(_echo_scu(), ['1.2.840.10008.1.1'])
                 ac = P.AAssociateAcPDU.decode(R.build_pdu(F.assoc_ac_tree(max_len=peer)))
                 Stub.preload = [ac]
-                asce = asceprovider.AssociationRequester(
-                    ae, local, {'aet': 'REMOTE', 'address': 'peer', 'port': 104})
-                asce.request()
+                cm = ae.request_association({'aet': 'REMOTE', 'address': 'peer', 'port': 104})
+                asce = cm.__enter__()
                 stub = Stub.instances[0]
                 pdus = [p for p in stub.sent_pdus() if getattr(p, 'pdu_type', None) == 1]
             if len(pdus) == 1:
@@ -161,12 +216,14 @@ def run_case(res, case):
         msg.affected_sop_instance_uid = '1.2.3.4'
         msg.priority = 0
         # the data set comes from memory, from a stream or from a real file (as storage_scu does)
-        source = ('bytes', 'stream', 'file')[(n + local + peer) % 3]
+        source = ('bytes', 'stream', 'file', 'short-reads')[(n + local + peer) % 4]
         if source == 'bytes':
             msg.data_set = data
         elif source == 'stream':
             import io
             msg.data_set = io.BytesIO(data)
+        elif source == 'short-reads':
+            msg.data_set = ShortReads(data, r)
         else:
             import tempfile
             fp = tempfile.TemporaryFile()
@@ -174,6 +231,7 @@ def run_case(res, case):
             fp.seek(132)
             msg.data_set = fp
         where += ' source=' + source
+        res.count('sim.source-' + source)
         before = len(stub.sent_messages())
         try:
             asce.send(msg, 1)
